@@ -353,7 +353,7 @@ def duration_cases(rng, tag):
     pats = [[H - 1, H - 1], [H - 1, H], [H, H - 1, 0], [H, H], [U], [U, 1], [U - 1, 1], [U - 1, 2], [U, U], [H, H, 7], [U, U, 1, 1],
             [H - 1, H - 1, 1], [H - 1, H - 1, 1, 5], [1, U - 1, 3], [0, U, 0, 2]]
     for i, durs in enumerate(pats):
-        for tts, mts in ((1000, 1000), (90000, 1000), (1000, 90000), (U, 1), (1, U)):
+        for tts, mts in ((1000, 1000), (90000, 1000), (1000, 90000), (U, 1), (1, U), (U, U - 1), (4000000000, 3000000000)):
             kind = KINDS[(i + tts) % len(KINDS)]
             calls = [{"op": "add", "conf": full_conf(kind, tts, rng)}, {"op": "add", "conf": full_conf("aac", 48000, rng)}]
             for k, d in enumerate(durs):
@@ -620,7 +620,7 @@ def c03(prop, tier, replay):
     stb, big_mcs = gen_mc("MC_LookupBig", "MC_LookupBig", wd, tier, need_actions=("Step",))
     for i, c in enumerate(big_mcs):
         calls = [{"op": "count", "t": 1}] + [{"op": "offset", "t": 1, "k": k} for k in range(0, c["n"] + 3)] \
-            + [{"op": "read", "t": 1, "k": 0}, {"op": "read", "t": 1, "k": c["n"] + 1}]
+            + [{"op": "read", "t": 1, "k": k} for k in [0, c["n"] + 1] + list(c.get("small", []))]
         cases.append({"id": "lkbig-%d" % i, "prop": "C03", "file": c["file"], "total": c["total"], "n": c["n"], "place": "sparse",
                       "expect_ok": True, "calls": calls})
     # leg C: large random consistent table sets rendered by the library's own writers
@@ -691,6 +691,8 @@ def c09(prop, tier, replay):
 
 def layout_cases(mcs, name):
     seen, cases = set(), []
+    ref = next((c["file"] for c in mcs if not c["ops"]), None)
+    group_ref = {}
     for c in mcs:
         h = hashlib.sha1(bytes(c["file"])).hexdigest()
         if h in seen:
@@ -700,6 +702,19 @@ def layout_cases(mcs, name):
                       "ops": c["ops"], "base": c["base"]})
         if c.get("init"):
             cases[-1]["init"] = c["init"]
+        # layouts made only of swaps below the movie header's own children hold the same boxes with the
+        # same stored offsets as the reference layout (children of moov excluded: the order of the tracks
+        # is part of the structure; top-level swaps, 64-bit headers and spare bytes move the media data)
+        if c["ops"] and all(o["op"] == "swap" and len(o["path"]) >= 2 for o in c["ops"]) and ref is not None and not c.get("init"):
+            cases[-1]["ref_file"] = ref
+        # one box inserted into a container below the movie header: wherever among its siblings it is put, the
+        # same boxes are there (and the movie header keeps its size, so the stored offsets are the same too)
+        if len(c["ops"]) == 1 and c["ops"][0]["op"] in ("edts", "mehd", "free", "unk") and c["ops"][0]["path"][:1] == [2] and not c.get("init"):
+            key = json.dumps({k: v for k, v in c["ops"][0].items() if k != "at"}, sort_keys=True)
+            if key in group_ref:
+                cases[-1]["ref_file"] = group_ref[key]
+            else:
+                group_ref[key] = c["file"]
     return cases
 
 
@@ -910,6 +925,34 @@ def c15(prop, tier, replay):
 # ----------------------------------------------------------------------------------------
 # C11: crash-point (cut) enumeration
 
+def moov_first(file):
+    """ftyp | mdat | moov (as the muxer writes it) -> ftyp | moov | mdat, the 32-bit chunk offsets moved along
+    (input construction only: nothing here judges the library)"""
+    b = bytes(file)
+    boxes, o = [], 0
+    while o + 8 <= len(b):
+        sz = int.from_bytes(b[o:o + 4], "big")
+        if sz < 8 or o + sz > len(b):
+            return list(b)
+        boxes.append((b[o + 4:o + 8], o, sz))
+        o += sz
+    d = {t: (o, sz) for t, o, sz in boxes}
+    if [t for t, _, _ in boxes] != [b"ftyp", b"mdat", b"moov"]:
+        return list(b)
+    mo, ms = d[b"moov"]
+    moov = bytearray(b[mo:mo + ms])
+    i = moov.find(b"stco")
+    while i > 0:
+        n = int.from_bytes(moov[i + 8:i + 12], "big")
+        for k in range(n):
+            e = i + 12 + 4 * k
+            moov[e:e + 4] = (int.from_bytes(moov[e:e + 4], "big") + ms).to_bytes(4, "big")
+        i = moov.find(b"stco", i + 4)
+    fo, fs = d[b"ftyp"]
+    do, ds = d[b"mdat"]
+    return list(b[fo:fo + fs] + bytes(moov) + b[do:do + ds])
+
+
 @check("C11")
 def c11(prop, tier, replay):
     t0 = time.time()
@@ -954,6 +997,14 @@ def c11(prop, tier, replay):
     write_ndjson(rp, small[:4 if tier == "quick" else 40])
     mp4v(["mux-file", rp, fp])
     files += [{"file": f["file"], "kind": "muxer output " + f["id"]} for f in read_ndjson(fp) if len(f["file"]) < 20000]
+    # a sample of 70 000 bytes (a different read path in some implementations), movie header first
+    bigcase = {"id": "big1", "seed": 1, "cfg": {"major": s4("isom"), "minor": big(512), "brands": [s4("isom")], "timescale": big(1000)}, "pos": [],
+           "calls": [{"op": "add", "conf": full_conf("avc", 1000, rng)}] +
+                    [{"op": "write", "t": 1, "len": ln, "fill": 0x5A + i, "dur": big(400), "cts": 0, "sync": i == 0, "valid": True} for i, ln in enumerate([300, 70000, 5])]}
+    write_ndjson(rp, [bigcase])
+    mp4v(["mux-file", rp, fp])
+    for f in read_ndjson(fp):
+        files.append({"file": moov_first(f["file"]), "kind": "muxer output, 70 000-byte sample, movie header first", "step": 11})
     # third-party files
     files.append({"file": canned("minimal.mp4"), "kind": "canned minimal.mp4"})
     files.append({"file": canned("extended_audio_object_type.mp4"), "kind": "canned extended_audio_object_type.mp4"})
@@ -1021,7 +1072,17 @@ def c10(prop, tier, replay):
     rp = os.path.join(wd, "mux-cases.ndjson")
     mp4v(["mux-gen", str(seed()), str(40 if tier == "quick" else 400), rp])
     mux = [c for c in read_ndjson(rp) if 2 <= sum(1 for x in c["calls"] if x["op"] == "write") <= (12 if tier == "quick" else 40)]
-    for c in mux[:3 if tier == "quick" else 40]:
+    chosen, want = [], set(KINDS)
+    for c in mux:
+        kinds = {x["conf"]["kind"] for x in c["calls"] if x["op"] == "add"}
+        if kinds & want or len(chosen) < 3:
+            want -= kinds
+            chosen.append(c)
+        if not want and len(chosen) >= 3:
+            break
+    if want:
+        raise ToolError("vacuity: no muxing session with media kinds %s" % sorted(want))
+    for c in (chosen if tier == "quick" else (chosen + mux)[:40]):
         c["kind"] = "mux " + c["id"]
         cases.append(c)
     # a muxing session beyond 4 GiB (the media data header is rewritten in its 64-bit form at the end)
@@ -1264,7 +1325,7 @@ def robust_suite(tier):
     with ThreadPoolExecutor(max_workers=12) as ex:
         rs = list(ex.map(lambda j: run_robust_base(j[0], j[1], wd, j[2]), jobs))
     # amplification family: T tracks whose parameter-set records all reach into one shared region
-    amps = ["90,30,hevc", "90,30,avc", "30,60,hevc", "12,254,avc", "40,300,esds", "100,64,esds", "20000,400000,fragwalk"] + (["90,200,hevc", "90,200,avc", "90,2000,esds", "60000,600000,fragwalk"] if tier == "thorough" else [])
+    amps = ["90,30,hevc", "90,30,avc", "30,60,hevc", "12,254,avc", "40,300,esds", "100,64,esds", "40,300,esds4", "20000,400000,fragwalk"] + (["90,200,hevc", "90,200,avc", "90,2000,esds", "60000,600000,fragwalk"] if tier == "thorough" else [])
     rs += [run_amplify(a, wd, p) for p in ("debug", "release") for a in amps]
     res = {"stats": stats, "bases": [{"kind": b["kind"], "len": len(b["file"]), "fields": len(b["fields"]), "plan": {k: v for k, v in b["plan"].items()}} for b in bases],
            "executions": sum(x["cases"] for x in rs), "events": sum(x["events"] for x in rs), "fails": [], "wall": time.time() - t0}
